@@ -4,6 +4,7 @@ import (
 	"bytes"
 	"encoding/json"
 	"fmt"
+	"math/big"
 
 	"github.com/Oneledger/protocol/action"
 	"github.com/Oneledger/protocol/data/keys"
@@ -19,7 +20,10 @@ import (
 // 4 = first signature duplicated, 5 = an empty signature entry appended, 6 = a stranger's valid
 // signature over the same content appended; 7 and 8 spell the first signer's public key differently
 // (7 = the other customary spelling of the same key: tendermint's amino prefix in front of an
-// ED25519 or SECP256K1 key, the uncompressed point for a BTCEC key; 8 = a zero byte appended).
+// ED25519 or SECP256K1 key, the uncompressed point for a BTCEC key; 8 = a zero byte appended);
+// 9 and 10 spell the first signature differently (9 = a zero byte appended; 10 = the twin
+// signature anybody can compute from a valid one: (r, N-s) for the two ECDSA algorithms, in the
+// encoding of the original, and (R, s+L) for ED25519).
 func Reencode(tx []byte, how int) []byte {
 	if how == 3 {
 		return append(append([]byte{}, tx...), ' ', '\n')
@@ -54,6 +58,14 @@ func Reencode(tx []byte, how int) []byte {
 				}
 			}
 			st.Signatures[0].Signer = keys.PublicKey{KeyType: k.KeyType, Data: d}
+		case 9:
+			st.Signatures[0].Signed = append(append([]byte{}, st.Signatures[0].Signed...), 0)
+		case 10:
+			alt := twinSignature(st.Signatures[0].Signer.KeyType, st.Signatures[0].Signed)
+			if alt == nil {
+				return nil
+			}
+			st.Signatures[0].Signed = alt
 		default:
 			x := NewAcct(99, "replay-stranger")
 			st.Signatures = append(st.Signatures, action.Signature{Signer: x.Pub, Signed: x.Sign(st.RawTx.RawBytes())})
@@ -82,7 +94,7 @@ func Reencode(tx []byte, how int) []byte {
 // (byte-identical, or the same signed content re-encoded). The property holds iff the
 // resubmission is rejected by CheckTx and A's results and application hash stay equal to B's.
 func RunReplay(seed uint64, histories, blocks, maxTxs int) (*Result, error) {
-	res := NewResult("replay", seed, "case = one generated block history on twin replicas; A's blocks additionally carry resubmissions (byte-identical, or re-encoded: indentation, key order, unknown field, trailing whitespace, and altered unsigned envelope parts: duplicated / empty / stranger's extra signature entry, first signer key re-spelled: amino-prefixed / uncompressed point / trailing zero byte; every second history has SECP256K1 and BTCEC signers besides ED25519) of transactions that succeeded earlier, each first offered to CheckTx; monitor: CheckTx code != 0 and A's application hash / other results equal B's; non-trivial = at least one resubmission of a successful state-changing tx delivered at a later height; distinct = SHA-256 of the lines")
+	res := NewResult("replay", seed, "case = one generated block history on twin replicas; A's blocks additionally carry resubmissions (byte-identical, or re-encoded: indentation, key order, unknown field, trailing whitespace, and altered unsigned envelope parts: duplicated / empty / stranger's extra signature entry, first signer key re-spelled: amino-prefixed / uncompressed point / trailing zero byte, first signature re-spelled: trailing zero byte / the twin signature (r, N-s) resp. (R, s+L); every second history has SECP256K1 and BTCEC signers besides ED25519) of transactions that succeeded earlier, each first offered to CheckTx; monitor: CheckTx code != 0 and A's application hash / other results equal B's; non-trivial = at least one resubmission of a successful state-changing tx delivered at a later height; distinct = SHA-256 of the lines")
 	root := rng.New(seed*77 + 3)
 	for c := 0; c < histories; c++ {
 		r := root.Fork()
@@ -130,7 +142,7 @@ func RunReplay(seed uint64, histories, blocks, maxTxs int) (*Result, error) {
 				if r.Intn(3) == 0 {
 					extra = o.b
 				} else {
-					how = r.Intn(9)
+					how = r.Intn(11)
 					extra = Reencode(o.b, how)
 					if extra == nil {
 						how = 3
@@ -187,4 +199,58 @@ func RunReplay(seed uint64, histories, blocks, maxTxs int) (*Result, error) {
 		TruncateAppLog()
 	}
 	return res, nil
+}
+
+// twinSignature computes, without any key, the second signature that the bare verification
+// equation accepts wherever it accepts sig.
+func twinSignature(alg keys.Algorithm, sig []byte) []byte {
+	derInt := func(b *big.Int) []byte {
+		x := b.Bytes()
+		if len(x) == 0 || x[0]&0x80 != 0 {
+			x = append([]byte{0}, x...)
+		}
+		return append([]byte{0x02, byte(len(x))}, x...)
+	}
+	switch alg {
+	case keys.BTCECSECP:
+		s, err := btcec.ParseDERSignature(sig, btcec.S256())
+		if err != nil {
+			return nil
+		}
+		body := append(derInt(s.R), derInt(new(big.Int).Sub(btcec.S256().N, s.S))...)
+		return append([]byte{0x30, byte(len(body))}, body...)
+	case keys.SECP256K1, keys.ETHSECP:
+		if len(sig) < 64 {
+			return nil
+		}
+		out := append([]byte{}, sig...)
+		t := new(big.Int).Sub(btcec.S256().N, new(big.Int).SetBytes(sig[32:64])).Bytes()
+		for i := 32; i < 64; i++ {
+			out[i] = 0
+		}
+		copy(out[64-len(t):64], t)
+		return out
+	case keys.ED25519:
+		if len(sig) != 64 {
+			return nil
+		}
+		l, _ := new(big.Int).SetString("7237005577332262213973186563042994240857116359379907606001950938285454250989", 10)
+		le := make([]byte, 32)
+		for i := 0; i < 32; i++ {
+			le[i] = sig[63-i]
+		}
+		t := new(big.Int).Add(new(big.Int).SetBytes(le), l).Bytes()
+		if len(t) > 32 {
+			return nil
+		}
+		out := append([]byte{}, sig...)
+		for i := 32; i < 64; i++ {
+			out[i] = 0
+		}
+		for i, b := range t {
+			out[32+len(t)-1-i] = b
+		}
+		return out
+	}
+	return nil
 }
